@@ -23,6 +23,7 @@ import (
 	"github.com/libp2p/go-libp2p/core/network"
 	"github.com/libp2p/go-libp2p/core/peer"
 	ma "github.com/multiformats/go-multiaddr"
+	manet "github.com/multiformats/go-multiaddr/net"
 	mh "github.com/multiformats/go-multihash"
 	"google.golang.org/protobuf/proto"
 
@@ -205,7 +206,7 @@ func (s *vC07S) queryLocal(k []byte) {
 
 func TestVerif_C07_served(t *testing.T) {
 	vh.Run(t, vh.Spec{Prop: "C07", Unit: "served", Quick: 400, Thorough: 15000, CostMs: 12,
-		Rule:    "server-mode DHT over a small simulated network, provider manager with validity in {30 m, 2 h, 48 h}, provider address TTL in {10 m, validity/2, 2x validity} (so that providers outlive the addresses the node knows for them), cleanup interval validity/3 .. 1.3x or off, read cache of 1-2 entries or default; sequential histories of 20-45 operations over 2-4 keys in virtual time: ADD_PROVIDER frames over fresh inbound streams from 3-8 senders naming themselves with 1-2 addresses (1 in 5 also name a ghost, which must be ignored), Provide(announce=false), GET_PROVIDERS frames from any peer, local queries, clock advances aimed at validity / address TTL +-1 s of some addition; lock-step model key -> provider -> vt of the last accepted addition; every answer (frame or local) must list exactly the providers whose validity has not elapsed (either at equality), nobody twice, nobody never added; non-trivial = a remote answer withheld an expired provider and a remote answer served a provider without any address; distinct by answer sequence",
+		Rule:    "server-mode DHT over a small simulated network, provider manager with validity in {30 m, 2 h, 48 h}, provider address TTL in {10 m, validity/2, 2x validity} (so that providers outlive the addresses the node knows for them), cleanup interval validity/3 .. 1.3x or off, read cache of 1-2 entries or default; sequential histories of 20-45 operations over 2-4 keys in virtual time: ADD_PROVIDER frames over fresh inbound streams from 3-8 senders naming themselves with 1-2 addresses (a third of them private addresses only; a third of the nodes run with a public-addresses-only address filter, as the WAN side of the dual DHT does; 1 in 5 frames also name a ghost, which must be ignored), Provide(announce=false), GET_PROVIDERS frames from any peer, local queries, clock advances aimed at validity / address TTL +-1 s of some addition; lock-step model key -> provider -> vt of the last accepted addition; every answer (frame or local) must list exactly the providers whose validity has not elapsed (either at equality), nobody twice, nobody never added; non-trivial = a remote answer withheld an expired provider and a remote answer served a provider without any address; distinct by answer sequence",
 		Clauses: []string{"valid-served", "expired-not-served", "no-duplicates", "no-stranger", "add-accepted", "query-answered"}},
 		func(c *vh.Case) {
 			c.Bubble(t, 24*365*time.Hour, "served-hang", func(t *testing.T) {
@@ -223,7 +224,15 @@ func TestVerif_C07_served(t *testing.T) {
 					pmOpts = append(pmOpts, records.Cache(lc))
 				}
 				N := 3 + r.Intn(6)
-				n := vNewNet(t, c, vNetCfg{N: N, K: 3, A: 3, B: 3, Seeds: N, Mode: ModeServer, Opts: []Option{ProviderManagerOpts(pmOpts...)}})
+				dhtOpts := []Option{ProviderManagerOpts(pmOpts...)}
+				publicOnly := r.Intn(3) == 0
+				if publicOnly {
+					// as on the WAN side of the dual DHT: only public addresses are recorded; a provider behind a NAT that
+					// announces private addresses only is still accepted (it carries an address) and served without addresses
+					dhtOpts = append(dhtOpts, AddressFilter(func(as []ma.Multiaddr) []ma.Multiaddr { return ma.FilterAddrs(as, manet.IsPublicAddr) }))
+				}
+				c.Set("address_filter_public_only", publicOnly)
+				n := vNewNet(t, c, vNetCfg{N: N, K: 3, A: 3, B: 3, Seeds: N, Mode: ModeServer, Opts: dhtOpts})
 				defer n.Close()
 				s := &vC07S{c: c, n: n, validity: int64(validity), last: map[string]map[peer.ID]vC07Add{}, addrs: map[peer.ID][]ma.Multiaddr{}}
 				c.Set("validity", validity.String())
@@ -245,6 +254,14 @@ func TestVerif_C07_served(t *testing.T) {
 					s.addrs[id] = []ma.Multiaddr{ma.StringCast(fmt.Sprintf("/ip4/%d.%d.7.7/tcp/%d", 30+i, 1+r.Intn(200), 4000+i))}
 					if r.Intn(3) == 0 {
 						s.addrs[id] = append(s.addrs[id], ma.StringCast(fmt.Sprintf("/ip4/%d.%d.8.8/udp/%d/quic-v1", 30+i, 1+r.Intn(200), 4000+i)))
+					}
+					if r.Intn(3) == 0 {
+						// announces private addresses only
+						s.addrs[id] = []ma.Multiaddr{ma.StringCast(fmt.Sprintf("/ip4/192.168.%d.%d/tcp/%d", 1+r.Intn(200), 2+i, 4000+i))}
+						if r.Intn(2) == 0 {
+							s.addrs[id] = append(s.addrs[id], ma.StringCast(fmt.Sprintf("/ip4/10.%d.0.%d/udp/%d/quic-v1", r.Intn(200), 2+i, 4000+i)))
+						}
+						c.Obs("senders_announcing_private_addresses_only", 1)
 					}
 					senders = append(senders, id)
 				}
